@@ -1,0 +1,65 @@
+//go:build verif
+
+package layout
+
+import (
+	bo "github.com/benoitkugler/webrender/html/boxes"
+	"github.com/benoitkugler/webrender/html/tree"
+)
+
+// Instrumentation of the page loop for the external verification harness
+// (/verif). Compiled only with -tags verif; without the tag the two functions
+// below are empty (verif_hooks_off.go).
+
+// VerifPageEvent is one step of the page loop.
+type VerifPageEvent struct {
+	Doc  *tree.HTML
+	Kind string // "loop": a pagination round starts (or, Loop = -1, pagination is over); "page": a page was appended by makeAllPages
+
+	Loop          int   // "loop": number of the round, -1 after the last one
+	Dirty, Wanted []int // "loop": indexes of the pages whose RemakeState has ContentChanged / PagesWanted set
+
+	Index             int  // "page": index of the page
+	Remade            bool // the page was laid out in this round (false: kept from the previous round)
+	Blank, RightPage  bool
+	InitialResumeAt   tree.ResumeStack // where the page started
+	ResumeAt          tree.ResumeStack // where the next page resumes (nil: last page)
+	NextBreak         string           // kind of break the next page starts with
+	BrokenOutOfFlow   int              // out-of-flow boxes waiting for their continuation
+	ReportedFootnotes int              // footnotes waiting for a next page
+}
+
+// VerifPageHook, when set, receives every step of the page loop, after the
+// state change. It may block (scheduler gate) or panic (page budget).
+var VerifPageHook func(VerifPageEvent)
+
+func verifLoop(context *layoutContext, doc *tree.HTML, loop int) {
+	if h := VerifPageHook; h != nil {
+		ev := VerifPageEvent{Doc: doc, Kind: "loop", Loop: loop}
+		for i, item := range context.pageMaker {
+			if item.RemakeState.ContentChanged {
+				ev.Dirty = append(ev.Dirty, i)
+			}
+			if item.RemakeState.PagesWanted {
+				ev.Wanted = append(ev.Wanted, i)
+			}
+		}
+		h(ev)
+	}
+}
+
+func verifPageMade(context *layoutContext, doc *tree.HTML, index int, remade bool, page *bo.PageBox, resumeAt tree.ResumeStack) {
+	if h := VerifPageHook; h != nil {
+		item := context.pageMaker[index]
+		ev := VerifPageEvent{
+			Doc: doc, Kind: "page", Index: index, Remade: remade,
+			Blank: page.PageType.Blank, RightPage: item.RightPage,
+			InitialResumeAt: item.InitialResumeAt, ResumeAt: resumeAt,
+			BrokenOutOfFlow: len(context.brokenOutOfFlow), ReportedFootnotes: len(context.reportedFootnotes),
+		}
+		if index+1 < len(context.pageMaker) {
+			ev.NextBreak = context.pageMaker[index+1].InitialNextPage.Break
+		}
+		h(ev)
+	}
+}
